@@ -223,6 +223,15 @@ def _c12(tier):
     ]
 
 
+def _far_from_base(scn):
+    """Scenario mutation for the C13 'far from base' leg: never shift the base point, always compute the poisedness constant."""
+    up = [kv for kv in scn['args']['user_params'] if kv[0] not in ('general.rounding_error_constant', 'logging.save_poisedness')]
+    up.append(['general.rounding_error_constant', 0.0])
+    up.append(['logging.save_poisedness', True])
+    scn['args']['user_params'] = up
+    scn['features'] = S.features(scn)
+
+
 def _c13(tier):
     return [
         dict(name='box-swarm', leg='swarm', units=U(tier, 500), opts=dict(per_unit=8, oracles=['insitu'], probes=('c13',), profile=P(
@@ -233,6 +242,11 @@ def _c13(tier):
             p_restarts=0.4, p_bounds=0.5, **CONVEX))),
         dict(name='regularised-swarm', leg='swarm', units=U(tier, 200), opts=dict(per_unit=1, oracles=['insitu'], probes=('c13',), salt='reg', profile=P(
             p_reg=1.0, p_bounds=0.5, p_sets=0.25, p_restarts=0.3, p_growing=0.0))),
+        # geometry step far from the model's base point (large base-relative coordinates: no base shifts, big steps) with the
+        # poisedness computation on: added after seeded change C13c was reached only once by the thorough tier
+        dict(name='box-far-from-base', leg='swarm', units=U(tier, 100), opts=dict(per_unit=8, oracles=['insitu'], probes=('c13',), salt='farbase', mutate=_far_from_base, profile=P(
+            p_bounds=1.0, p_onesided=0.3, p_scaling=0.0, p_diag=1.0, p_restarts=0.4, p_growing=0.0, x_scales=[1e3, 1e3, 10.0], maxfun_choices=[25, 40, 60, 100],
+            p_buggify=0.0, p_explicit_rhobeg=0.0))),
     ]
 
 
